@@ -306,17 +306,19 @@ where
                 n.pstack.clone(),
                 &mut None,
             );
-            if new_laidx > laidx {
+            // A neighbour whose cost cannot be represented is unreachable for our purposes.
+            if new_laidx > laidx
+                && let Some(cf) = n
+                    .cf
+                    .checked_add(u16::from((self.parser.token_cost)(tidx)))
+            {
                 let nn = PathFNode {
                     pstack: n_pstack,
                     laidx: n.laidx,
                     repairs: n
                         .repairs
                         .child(RepairMerge::Repair(Repair::InsertTerm(tidx))),
-                    cf: n
-                        .cf
-                        .checked_add(u16::from((self.parser.token_cost)(tidx)))
-                        .unwrap(),
+                    cf,
                 };
                 nbrs.push((nn.cf, nn));
             }
@@ -330,11 +332,15 @@ where
 
         let la_tidx = self.parser.next_tidx(n.laidx);
         let cost = (self.parser.token_cost)(la_tidx);
+        // A neighbour whose cost cannot be represented is unreachable for our purposes.
+        let Some(cf) = n.cf.checked_add(u16::from(cost)) else {
+            return;
+        };
         let nn = PathFNode {
             pstack: n.pstack.clone(),
             laidx: n.laidx + 1,
             repairs: n.repairs.child(RepairMerge::Repair(Repair::Delete)),
-            cf: n.cf.checked_add(u16::from(cost)).unwrap(),
+            cf,
         };
         nbrs.push((nn.cf, nn));
     }
